@@ -157,7 +157,7 @@ class Harness:
     # ---------------------------------------------------------------- resolvers
     def serve(self, rs, parent, obj, field, args, path):
         fd = fields_of(self.schema, obj)[field]
-        f = rs.tree.faults.get(path)
+        f = rs.tree.faults.get(path) or rs.tree.faults.get(("$at", nid_of(parent), field))
         if f is not None:
             return self.perform(rs, f)
         node = rs.tree.store["nodes"].get(str(nid_of(parent))) if nid_of(parent) is not None else None
